@@ -4,7 +4,12 @@ from impl import clean_api
 ASSUMPTIONS = [
     "git (ls-files / rev-parse --show-cdup), pathlib.PurePosixPath.match, shutil.rmtree, Path.iterdir are trusted; git's answers "
     "are inputs of the model (the harness asks git itself with --full-name from the repository top)",
-    "regular files and directories only (no symlinks, devices); ASCII names; POSIX paths",
+    "regular files and directories only (no symlinks, devices); POSIX paths; names from ASCII plus Latin-1 letters, space, "
+    "double quote, backslash (what git C-quotes in line-oriented output) - no control characters (the listing is read from lines)",
+    "declared nodes are generated as plain Path, PickleNode, a user-defined class implementing the PPathNode protocol, and "
+    "DataCatalog entries registered with an explicit path / PickleNode; all of them are 'declared dependencies or products'",
+    "tie: Properties/CleanTie.lean proves the hand-written model equal to interpreters of the control structure extracted "
+    "from clean.py (extract_cleangen.py) - semantic check per function, so equivalent rewritings keep it, changes of meaning break it",
     "task modules are collected from the given paths only; 'declared' means declared by a collected task",
     "click 8.5 lets a config-file `exclude` key override -e (environment incompatibility shared with the broken `build` CLI): "
     "-e and a config exclude key are never generated together",
